@@ -148,7 +148,7 @@ func checkGuardedTable(fn *ssa.Function, sp tableSpec) []tableFinding {
 func c08(c *eng.Ctx) {
 	c.Rule("R1", "instance table atomicity (globalMaxInflight): every lookup/range of instanceStates executes with the lock held, every update/delete with it held exclusively, and no release separates the lookup (or publication) of a record from any dereference of it", 8)
 	c.Rule("R1b", "exact accounting: every change of an instance's count by Δ is paired with add(Δ) on the running total on all paths (swap → add(current−old); rollback add(−δ) on both; removal → add(−count) of the removed record)", 3)
-	c.Rule("R2", "rollback only undoes increases: a write to an instance's count after the swap adds −δ under δ > 0 (a report that lowers the count is always applied)", 1)
+	c.Rule("R2", "rollback only undoes increases: a write to an instance's count after the swap adds −δ under δ > 0 (a report that lowers the count is always applied); an increase that overflows is undone, decided on the atomic add's own result", 2)
 	c.Rule("R3", "request-id monotonicity and acceptance: an id not newer than the recorded one returns RequestIDTooOld without touching the counts; the recorded id only moves forward; accept=true only when the total does not exceed the limit", 4)
 	c.Rule("R4", "negative token counts are refused before any state change in DoAcquire", 2)
 	c.Rule("R5", "token grants: the amount granted is exactly the amount taken from the bucket, which is the amount asked or a halving of it", 2)
@@ -228,6 +228,28 @@ func c08(c *eng.Ctx) {
 			})
 			c.Check("R2", ss, "rollback undoes increases only", ci.Pos(), ok, "after the limit was lowered the total exceeds it: a rollback not restricted to δ > 0 also undoes every report that lowers an instance's count, so the total never comes down")
 		}
+	}
+	// an increase that overflows the limit must be undone: some rollback of the instance count exists after the swap
+	nRollback := 0
+	for _, ci := range eng.CallsTo(ss, "sync/atomic.AddInt32") {
+		if isCountAddr(eng.Args(ci)[0]) && eng.ReachAfter(swap, eng.PathQuery{Target: func(i ssa.Instruction) bool { return i == ci.(ssa.Instruction) }}) != nil {
+			nRollback++
+			// the rollback is decided on the result of the atomic add (count − max after adding), not on a separate pre-check
+			var addRes ssa.Value
+			if x := eng.ReachAfter(swap, eng.PathQuery{Target: isAddTotal}); x != nil {
+				addRes = eng.ResultValue(x.(ssa.CallInstruction))
+			}
+			onOverflow := addRes != nil && eng.GuardedBy(ci, func(r eng.Rel) bool {
+				z, isZ := eng.IntConst(r.Y)
+				return r.X == addRes && isZ && z == 0 && r.Op == token.GTR
+			})
+			c.Check("R2", ss, "overflowing increase is rolled back on the add's own result", ci.Pos(), onOverflow,
+				"the decision to undo must use the value returned by the atomic add of this report; a separate read of the total (check-then-act) lets concurrent reports of different instances all pass and together exceed the limit")
+		}
+	}
+	if nRollback == 0 {
+		c.Fail("R2", ss, "overflowing increase is rolled back on the add's own result", swap.Pos(),
+			"after swap+add no path undoes an increase that pushed the total over the limit: with concurrent reports (or a pre-check that raced) the accepted counts sum above the global limit")
 	}
 	// removal: delete paired with add(−count of the removed record)
 	for _, ci := range eng.Calls(ss) {
